@@ -21,7 +21,7 @@ RULE = ('per case one random 2-D and one random 3-D crystal (all lattice systems
         'GroupOp = up to 5 operations of G, products and lattice-translated versions, each with an exact copy and a 1e-13 '
         'perturbed copy; PairState/ClusterSite = random (i,j,R) / (ci,R) with copies, dx-perturbed copies and neighbours in '
         'index space; Cluster = random plain / transition / vacancy / vacancy-transition clusters with permuted and '
-        'translated copies; vacancyThermoKinetics = random keys with copies, last-bit / -0.0 / 1e-13 perturbed copies and '
+        'translated copies, plus collinear triples / parallelograms with the transition or vacancy on every (parallel) pair; vacancyThermoKinetics = random keys with copies, last-bit / -0.0 / 1e-13 perturbed copies and '
         'clearly different keys; non-trivial = every pool has >= 2 equality classes and >= 1 class with >= 2 members; '
         'distinct = (type, lattice kind, atoms, |G|)')
 ASSUMPTIONS = ['perturbations are <= 1e-12 (comparison tolerances of the classes are 1e-8 absolute / 1e-5 relative); clearly '
@@ -37,7 +37,7 @@ REQUIRED_OBS = {'eval:C36:GroupOp:eq-implies-hash': 200, 'eval:C36:PairState:eq-
                 'eval:C36:GroupOp:transitive': 200, 'eval:C36:vTK:transitive': 100,
                 'eval:C36:PairState:sub-add': 40, 'eval:C36:PairState:xor-add': 40, 'eval:C36:PairState:neg-zero': 40,
                 'eval:C36:PairState:mismatch-raises': 20, 'eval:C36:PairState:g-add': 40, 'eval:C36:PairState:g-neg': 40,
-                'equal_pairs_seen': 500, 'unequal_pairs_seen': 500, 'cluster_kinds': 4}
+                'equal_pairs_seen': 500, 'unequal_pairs_seen': 500, 'cluster_kinds': 4, 'structured_cluster_sets': 20}
 CHUNK = 4
 MIXED_DIM = True  # also compare 2-D with 3-D instances (== must answer False, not raise)
 TINY = 1e-13
@@ -76,6 +76,12 @@ class Batch:
 # ------------------------------------------------------------------------------------------
 # generic laws on a pool: list of (object, class id); equal class id <=> built as equal values
 # ------------------------------------------------------------------------------------------
+def show(x):
+    if type(x).__name__ == 'Cluster':
+        return 'Cluster(transition=%s, vacancy=%s, sites=[%s])' % (x.__transition__, x.__vacancy__, ', '.join(str(cs) for cs in x.sites))
+    return repr(x)
+
+
 def laws(mon, T, pool, desc, tags_hash=()):
     pre = 'C36:%s:' % T
     n = len(pool)
@@ -88,16 +94,16 @@ def laws(mon, T, pool, desc, tags_hash=()):
             try:
                 e = x == y
             except Exception as ex:
-                mon.check(False, pre + 'eq-total', '== raises %s: %s | a=%r b=%r %s' % (type(ex).__name__, ex, x, y, desc))
+                mon.check(False, pre + 'eq-total', '== raises %s: %s | a=%s b=%s %s' % (type(ex).__name__, ex, show(x), show(y), desc))
                 ok_matrix = False
                 continue
-            mon.check(isinstance(e, (bool, np.bool_)), pre + 'eq-returns-bool', lambda: 'type %s a=%r b=%r' % (type(e), x, y))
+            mon.check(isinstance(e, (bool, np.bool_)), pre + 'eq-returns-bool', lambda: 'type %s a=%s b=%s' % (type(e), show(x), show(y)))
             E[a, b] = bool(e)
             try:
                 ne = x != y
-                mon.check(bool(ne) == (not bool(e)), pre + 'ne-negates-eq', lambda: '== gives %s, != gives %s | a=%r b=%r %s' % (e, ne, x, y, desc))
+                mon.check(bool(ne) == (not bool(e)), pre + 'ne-negates-eq', lambda: '== gives %s, != gives %s | a=%s b=%s %s' % (e, ne, show(x), show(y), desc))
             except Exception as ex:
-                mon.check(False, pre + 'ne-negates-eq:raises:' + type(ex).__name__, '!= raises %s | a=%r b=%r %s' % (ex, x, y, desc))
+                mon.check(False, pre + 'ne-negates-eq:raises:' + type(ex).__name__, '!= raises %s | a=%s b=%s %s' % (ex, show(x), show(y), desc))
     if not ok_matrix:
         mon.flush()
         return
@@ -110,18 +116,18 @@ def laws(mon, T, pool, desc, tags_hash=()):
             mon.flush()
             return
     for a in range(n):
-        mon.check(E[a, a], pre + 'reflexive', lambda: 'a=%r %s' % (pool[a][0], desc))
-        mon.check(hash(pool[a][0]) == hs[a], pre + 'hash-stable', lambda: 'a=%r' % (pool[a][0],))
+        mon.check(E[a, a], pre + 'reflexive', lambda: 'a=%s %s' % (show(pool[a][0]), desc))
+        mon.check(hash(pool[a][0]) == hs[a], pre + 'hash-stable', lambda: 'a=%s' % show(pool[a][0]))
         for b in range(a + 1, n):
             mon.check(E[a, b] == E[b, a], pre + 'symmetric',
-                      lambda: 'a==b %s, b==a %s | a=%r b=%r %s' % (E[a, b], E[b, a], pool[a][0], pool[b][0], desc))
+                      lambda: 'a==b %s, b==a %s | a=%s b=%s %s' % (E[a, b], E[b, a], show(pool[a][0]), show(pool[b][0]), desc))
             expect = pool[a][1] == pool[b][1]
             mon.check(E[a, b] == expect, pre + 'eq-value-semantics',
-                      lambda: 'built %s, == gives %s | a=%r b=%r %s' % ('equal' if expect else 'different', E[a, b], pool[a][0], pool[b][0], desc))
+                      lambda: 'built %s, == gives %s | a=%s b=%s %s' % ('equal' if expect else 'different', E[a, b], show(pool[a][0]), show(pool[b][0]), desc))
             real_mon.count('equal_pairs_seen' if expect else 'unequal_pairs_seen')
             if E[a, b] or E[b, a]:
                 mon.check(hs[a] == hs[b], pre + 'eq-implies-hash',
-                          lambda: 'a == b but hash %d != %d | a=%r b=%r %s' % (hs[a], hs[b], pool[a][0], pool[b][0], desc),
+                          lambda: 'a == b but hash %d != %d | a=%s b=%s %s' % (hs[a], hs[b], show(pool[a][0]), show(pool[b][0]), desc),
                           tags=tags_hash)
     # transitivity on the pool (from the observed relation)
     for a in range(n):
@@ -130,7 +136,7 @@ def laws(mon, T, pool, desc, tags_hash=()):
             for c in range(n):
                 if c == b or c == a or not E[b, c]: continue
                 mon.check(E[a, c], pre + 'transitive',
-                          lambda: 'a==b, b==c, not a==c | a=%r b=%r c=%r %s' % (pool[a][0], pool[b][0], pool[c][0], desc))
+                          lambda: 'a==b, b==c, not a==c | a=%s b=%s c=%s %s' % (show(pool[a][0]), show(pool[b][0]), show(pool[c][0]), desc))
     # foreign objects
     x = pool[0][0]
     for other in (None, 0, 'x', (1, 2)):
@@ -345,6 +351,28 @@ def cluster_pool(rng, crys, cluster, mon):
             # vacancy on another site of the cluster: different cluster
             add([s[1], s[0]] + s[2:], False, True)
             add([s[1], s[0]] + s[2:], True, True)
+    # structured site sets: equally spaced collinear triple and parallelogram on one sublattice; the same site
+    # set with the transition (or vacancy) on different, parallel pairs are different clusters
+    ci = atoms[int(rng.integers(len(atoms)))]
+    R0 = rng.integers(-1, 2, size=dim)
+    while True:
+        v, w = rng.integers(-1, 2, size=dim), rng.integers(-1, 2, size=dim)
+        if np.any(v) and np.any(w) and np.any(v - w) and np.any(v + w): break
+    tri = [(ci, tuple(int(x) for x in R0 + k * v)) for k in range(3)]
+    par = [(ci, tuple(int(x) for x in R0 + a * v + b * w)) for a, b in ((0, 0), (1, 0), (0, 1), (1, 1))]
+    for lead in ((0, 1), (1, 2), (0, 2), (1, 0)):
+        rest = [k for k in range(3) if k not in lead]
+        for vac in (False, True):
+            add([tri[k] for k in lead] + [tri[k] for k in rest], True, vac)
+    for lead in ((0, 1), (2, 3), (0, 2), (1, 3), (0, 3), (3, 2)):
+        rest = [k for k in range(4) if k not in lead]
+        for vac in (False, True):
+            add([par[k] for k in lead] + [par[k] for k in rest], True, vac)
+    add(tri, False, False)
+    add(par, False, False)
+    for k in range(3):
+        add([tri[k]] + [tri[m] for m in range(3) if m != k], False, True)
+    mon.count('structured_cluster_sets', 2)
     return pool
 
 
